@@ -432,11 +432,21 @@ def prove(ctx, prop_file, extra_targets=()):
     assumptions = []
     if ok:
         for f in files:
-            rc, out = sh(["coqc", "-Q", ".", "DepsDev", "-w", "-notation-overridden", f], cwd=COQ, timeout=1200)
-            if rc != 0:
-                ok = False
-                log += "\n" + out
-                continue
+            # the output of the property file (Print Assumptions) is cached next to its .vo and reused
+            # as long as the .vo is not rebuilt (re-running a heavy property file costs minutes)
+            cache = os.path.join(COQ, f[:-2] + ".assumptions")
+            vo = os.path.join(COQ, f + "o")
+            if newer(cache, vo):
+                out = open(cache).read()
+            else:
+                rc, out = sh(["coqc", "-Q", ".", "DepsDev", "-w", "-notation-overridden", f], cwd=COQ, timeout=2400)
+                if rc != 0:
+                    ok = False
+                    log += "\n" + out
+                    continue
+                with open(cache, "w") as cf:
+                    cf.write(out)
+                os.utime(cache, None)
             cur = None
             for line in out.splitlines():
                 if line.startswith("Closed under the global context"):
@@ -575,8 +585,11 @@ def finish(ctx, level, level_rule, trusted_base, assumptions, build_error=None):
         "coverage": cov, "assumptions": assumptions, "wall_s": round(time.time() - ctx.t0, 2),
         "violations": len(viol_records) + (1 if (broken and not viol_records) else 0),
     }
-    os.makedirs(os.path.join(VERIF, "evidence"), exist_ok=True)
-    with open(os.path.join(VERIF, "evidence/%s.json" % pid), "w") as f:
+    # a run against a scratch copy (VERIF_REPO) must not overwrite the evidence of /repo itself
+    evdir = os.environ.get("VERIF_EVIDENCE") or (
+        os.path.join(VERIF, "evidence") if os.path.realpath(REPO) == "/repo" else os.path.join(BUILD, "evidence-scratch"))
+    os.makedirs(evdir, exist_ok=True)
+    with open(os.path.join(evdir, "%s.json" % pid), "w") as f:
         json.dump(ev, f, indent=1, default=str)
     for l in lines:
         print(l)
